@@ -37,6 +37,41 @@ KINDS = {"in": ("IN", "InTransaction", "in_header"), "out": ("OUT", "OutTransact
 NON_HEADER_PARAMS = {"self", "configuration", "row", "from_lot"}
 
 
+def find_row_loop(rep: Report, rule: str, prog, po):
+    """The loop of parse_ods over the rows of the asset's sheet: `for .. in [enumerate(]<sheet>.rows()[)]`, or the same through a generator helper of the
+    parser module that hands on the rows of its argument. A helper that can stop before its source is exhausted (return / break inside its loop) is a
+    definite finding: everything below that point is never parsed. Returns (loop, helper FuncInfo or None)."""
+    for n in po.node.body:
+        if not isinstance(n, ast.For):
+            continue
+        it = n.iter
+        if isinstance(it, ast.Call) and isinstance(it.func, ast.Name) and it.func.id == "enumerate" and len(it.args) == 1:
+            it = it.args[0]
+        if "rows()" in unparse(it):
+            return n, None
+        if isinstance(it, ast.Call) and isinstance(it.func, ast.Name) and len(it.args) == 1 and not it.keywords:
+            h = prog.functions.get(f"{po.module}:{it.func.id}")
+            if h is None or not any(isinstance(x, (ast.Yield, ast.YieldFrom)) for x in ast.walk(h.node)) or len(h.param_names) != 1:
+                continue
+            src = h.param_names[0]
+            inner = [x for x in ast.walk(h.node) if isinstance(x, ast.For) and unparse(x.iter) == f"{src}.rows()"]
+            yf = [x for x in ast.walk(h.node) if isinstance(x, ast.YieldFrom) and unparse(x.value) == f"{src}.rows()"]
+            if len(inner) + len(yf) != 1:
+                continue
+            rep.analysed(h)
+            stops = [x for x in ast.walk(h.node) if isinstance(x, (ast.Return, ast.Break))] + [x for x in ast.walk(h.node) if isinstance(x, ast.Raise) and "StopIteration" in unparse(x)]
+            skips = [x for x in ast.walk(h.node) if isinstance(x, ast.Continue)]
+            yields = [x for x in ast.walk(h.node) if isinstance(x, ast.Yield)]
+            hands_on = bool(yf) or (len(yields) == 1 and isinstance(yields[0].value, ast.Name) and isinstance(inner[0].target, ast.Name) and yields[0].value.id == inner[0].target.id
+                                    and not any(isinstance(a, (ast.If, ast.Try, ast.While)) for a in ancestors(yields[0]) if a is not h.node and a is not inner[0]))
+            for x in stops:
+                rep.violation(rule, h.module, h.qualname, f"row source {h.qualname} ends before the sheet does", f"parse_ods reads its rows through {h.qualname}, which stops at line {x.lineno} ({short(x, 40)}) before {src}.rows() is exhausted: tables, stray data and structural faults below that point are never parsed - a malformed sheet is accepted and reports are written", loc(x), definite=True)
+            if not stops:
+                rep.check(hands_on and not skips, rule, h.module, h.qualname, f"row source {h.qualname} hands on every row", f"{h.qualname} does not yield every row of {src}.rows() unconditionally: skipped rows are never examined by the parser", loc(h.node), definite=True)
+            return n, h
+    raise AnalysisError("row loop of parse_ods not found")
+
+
 def _drains_by_class(m, po, drain: ast.For) -> bool:
     """Every path of the drain loop's body either adds this transaction to the set of its own class (exactly one add_entry, on the set keyed by the
     EntrySetType of the class the path established by isinstance) or raises having excluded all three classes; all three classes are served."""
@@ -177,11 +212,8 @@ def run(rep: Report, tier: str) -> None:
     rd = rep.rule("C11.d", "no row skipped or read twice: one handler call per data row, no break/continue/return in the row loop, handler adds exactly one transaction", floor=8)
     po = prog.func(OP, "parse_ods")
     rep.analysed(po)
-    loops = [n for n in po.node.body if isinstance(n, ast.For) and "rows()" in unparse(n.iter)]
-    if len(loops) != 1:
-        raise AnalysisError("row loop of parse_ods not found")
-    loop = loops[0]
-    rep.check(unparse(loop.iter) == "enumerate(input_sheet.rows())" and unparse(loop.target) == "(i, row)", rd, OP, po.qualname, "row loop enumerates every row of the asset's sheet", f"the row loop is 'for {unparse(loop.target)} in {unparse(loop.iter)}'", loc(loop))
+    loop, via = find_row_loop(rep, rd, prog, po)
+    rep.check((unparse(loop.iter) == "enumerate(input_sheet.rows())" or via is not None) and unparse(loop.target) == "(i, row)", rd, OP, po.qualname, "row loop enumerates every row of the asset's sheet", f"the row loop is 'for {unparse(loop.target)} in {unparse(loop.iter)}'", loc(loop))
     exits = [n for n in ast.walk(loop) if isinstance(n, (ast.Break, ast.Continue, ast.Return))]
     for n in exits:
         rep.violation(rd, OP, po.qualname, f"{type(n).__name__.lower()} inside the row loop", f"the row loop of parse_ods contains '{type(n).__name__.lower()}' under [{' and '.join(short(t, 50) for t, _ in _conds(n, loop))}]: rows after that point (or this row) are never examined — tables further down are silently dropped and structural faults there go unnoticed", loc(n), definite=True)
